@@ -39,6 +39,27 @@ def check(run):
                  "output flood with a STALLED operator terminal (operator channel of capacity 1-3, never drained), 0-9 chunks in flight, then "
                  "EOF / error / nothing, then client cancel; checked by the monitor only (goroutine dump after every transport is closed must show "
                  "no broker goroutine; the bubble must not dead-lock) - the model does not describe a bounded operator channel")
+    # the last hop: the closure and 'gone' notices reach the TERMINAL also while the operator has muted a flood (Ctrl+O)
+    import c19
+    okm, mbin, mlog = vlib.build_overlay_test(run.rundir, "lib/opshell")
+    if not okm:
+        run.oblige("opshell harness builds against /repo", False, mlog)
+    else:
+        evs = []
+        for gap in (0, 1, 500, 1999):
+            evs.append(c19.with_tail([{"t": 0, "ev": "p"}, {"t": 10, "ev": "o"}, {"t": 10 + gap, "ev": "p"}, {"t": 11 + gap, "ev": "s"}, {"t": 12 + gap, "ev": "s"},
+                                      {"t": 13 + gap, "ev": "s"}, {"t": 14 + gap, "ev": "l"}]))
+        mc = [{"i": k, "events": e} for k, e in enumerate(evs)]
+        rc3, out3, mres = c19.run_cases(run, mbin, mc, "mutednotices")
+        if rc3 != 0 or len(mres) != len(mc) or any(r.get("fail") for r in mres):
+            run.oblige("muted notices: harness ran under a pty", False, "rc=%s %s" % (rc3, out3[-800:].decode(errors="replace")))
+        else:
+            vlib.judge_stream(run, "mutednotices", c19.IMPORTS, "case", mc, mres, c19.term,
+                              {1: "a closure / 'shell is gone' notice (a status line) was not written to the terminal while shell output was muted with Ctrl+O",
+                               10: "mute model and implementation differ"}, (),
+                              "the operator mutes a flood (Ctrl+O), the shell dies 0 / 1 / 500 / 1999 ms later: the two closure notices, the 'gone' notice and the "
+                              "re-printed help (status lines) must all be written to the terminal by the real Shell (virtual time, pty child)",
+                              key_fn=lambda c: json.dumps(c["events"]))
     # schedules in which callers queue on the broker's mutex (real scheduler; see harness/overlay/iobroker/zz_verif_race_test.go)
     outf = os.path.join(run.rundir, "race.json")
     rounds = 30 if run.tier == "quick" else 1500
